@@ -60,7 +60,7 @@ def gen(rng, flavour):
         n = rng.randint(1, 10 if flavour == 'c04' else 8)
         nkeys = rng.randint(2, 4)
     if flavour == 'c04':
-        behs = ['val', 'val', 'val', 'exc', 'omit', 'raise', 'twice', 'unknown']
+        behs = ['val', 'val', 'val', 'exc', 'omit', 'raise', 'twice', 'unknown', 'steal']
     elif flavour == 'c09':
         behs = ['val', 'val', 'val', 'exc', 'raise'] if rng.random() < 0.5 else ['val', 'val', 'exc']
     elif flavour == 'c11':
@@ -76,6 +76,8 @@ def gen(rng, flavour):
             g = max(0.0, g + delta)
         t += g
         key = KEYS[rng.randrange(nkeys)] if nkeys else f'k{i}'
+        if flavour == 'c10' and calls and rng.random() < 0.2:
+            key = rng.choice(calls)['key']        # repeats a key: usually served from the pending request, not enqueued
         c = {'t': t, 'key': key, 'beh': rng.choice(behs), 'cancel': None, 'how': None}
         if flavour == 'c09' and rng.random() < 0.4:
             # queued / running before its result / after its result / after the batch
@@ -84,6 +86,9 @@ def gen(rng, flavour):
                                       cfg['bdur'] / 2, cfg['bdur'] + U, 3 * BT + cfg['bdur']])
             c['how'] = rng.choice(['cancel', 'timeout', 'waitfor'])
         calls.append(c)
+    # the batch function may fail *after* it has yielded every result (while closing its connection, say)
+    cfg['raise_end'] = rng.choice([None, None, None, 'HarnessError', 'ConnectionError', 'TimeoutError']) \
+        if flavour in ('c04', 'c10') else None
     muts = []
     if flavour == 'c10' and rng.random() < 0.3:
         for _ in range(rng.randint(1, 2)):
@@ -113,6 +118,9 @@ class BatcherHarness:
             uid = [0]
             beh = {}
 
+            def eff_key_of(c):
+                return 'K' + c['key'] if cfg['explicit_key'] == 'prefixed' else c['key']
+
             async def fn(batch):
                 bid[0] += 1
                 b = bid[0]
@@ -141,6 +149,13 @@ class BatcherHarness:
                         if bh == 'unknown':
                             emit('yield', b, f'unknown-{u}', 'val', u)
                             yield f'unknown-{u}', ('unknown', b, u)
+                        if bh == 'steal':
+                            # yields a key it was not given but which another call (maybe pending elsewhere) uses
+                            others = sorted({eff_key_of(c) for c in prog['calls']} - {kk for kk, _ in items})
+                            if others:
+                                sk = others[u % len(others)]
+                                emit('yield', b, sk, 'val', u)
+                                yield sk, ('stolen', b, u)
                         out = HarnessError(k, b, u) if bh == 'exc' else (k, b, a.cid, u)
                         emit('yield', b, k, 'exc' if bh == 'exc' else 'val', u)
                         yield k, out
@@ -150,6 +165,10 @@ class BatcherHarness:
                             yield k, (k, b, a.cid, uid[0])
                     if cfg.get('tail'):
                         await aio.sleep(cfg['tail'])      # work after the last result (a commit, say)
+                    if cfg.get('raise_end'):
+                        emit('braise_end', b, cfg['raise_end'])
+                        raise {'HarnessError': HarnessError, 'ConnectionError': ConnectionError,
+                               'TimeoutError': TimeoutError}[cfg['raise_end']]('after the last result', b)
                 finally:
                     running[0] -= 1
                     emit('bend', b)
@@ -199,10 +218,15 @@ class BatcherHarness:
                             else:
                                 r = await invoke(c, cid)
                             emit('ret', cid, 'val', r)
-                        except HarnessError as e:
-                            emit('ret', cid, 'exc', e.args)
-                        except TimeoutError:
-                            emit('ret', cid, 'timeout', None)
+                        except (HarnessError, ConnectionError, TimeoutError) as e:
+                            if e.args[:1] == ('after the last result',):
+                                emit('ret', cid, 'batch_end_error', (type(e).__name__, e.args[1]))
+                            elif isinstance(e, HarnessError):
+                                emit('ret', cid, 'exc', e.args)
+                            elif isinstance(e, TimeoutError):
+                                emit('ret', cid, 'timeout', None)
+                            else:
+                                emit('ret', cid, 'other', (type(e).__name__, str(e)[:80]))
                         except aio.CancelledError:
                             emit('ret', cid, 'cancelled', me.cancelling() > 0)
                         except BaseException as e:     # noqa
@@ -236,7 +260,7 @@ class BatcherHarness:
                             r = await aio.wait_for(invoke(c, cid), 16.0)
                             emit('ret', cid, 'val', r)
                         except HarnessError as e:
-                            emit('ret', cid, 'exc', e.args)
+                            emit('ret', cid, 'batch_end_error' if e.args[:1] == ('after the last result',) else 'exc', e.args)
                         except BaseException as e:   # noqa
                             emit('ret', cid, 'other', (type(e).__name__, str(e)[:80]))
                     await aio.sleep(cfg['ret'] + 2 * BT)
@@ -262,6 +286,7 @@ class BatView:
         self.bend = {}
         self.yields = collections.defaultdict(list)      # (b, key) -> [(kind, uid, seq)]
         self.braise = {}
+        self.braise_end = {}
         self.where = {}                                   # cid -> batch event
         self.sizes = [(-1, prog['cfg']['size'])]
         self.pending = None
@@ -283,6 +308,8 @@ class BatView:
                 self.yields[(e[1], e[2])].append((e[3], e[4], i))
             elif k == 'braise':
                 self.braise[e[1]] = (i, e)
+            elif k == 'braise_end':
+                self.braise_end[e[1]] = (i, e)
             elif k == 'set_size':
                 self.sizes.append((i, e[1]))
             elif k == 'pending':
@@ -301,6 +328,7 @@ class BatView:
             return ('val' if ys[0][0] == 'val' else 'exc', ys[0][1])
         if b[1] in self.braise:
             return ('batch-raise', self.braise[b[1]][1][2])
+        # never yielded; the batch ended normally or raised after its last result: an error of some kind
         return ('some-exception', None)
 
 
